@@ -167,7 +167,14 @@ def r14_5(ctx, prog):
         except Budget:
             ctx.unrecognised('R14.5', tyname + '::next', 'budget', 'too complex', span=f.span)
             continue
-        stack = ('proj', SYM('self'), ('stack',))
+        # the explicit stack: the one vector of the iterator whose top is inspected (a field of self, possibly of an inner traversal struct)
+        from absint import has_subterm
+        stacks = {v[2][0][2][0] for _r, eff_ in ps for e in eff_ if e[0] == '<branch>' for v in [e[2][0]]
+                  if v[0] == 'app' and v[1] == 'discriminant' and v[2][0][0] == 'app' and 'last_mut' in v[2][0][1] and len(v[2][0][2]) == 1 and has_subterm(v[2][0][2][0], SYM('self'))}
+        if len(stacks) != 1:
+            ctx.unrecognised('R14.5', tyname + '::next', 'stack', 'expected one explicit stack whose top is inspected, found %s' % sorted(fmt(x) for x in stacks), span=f.span)
+            continue
+        stack = stacks.pop()
         shapes = {'none': 0, 'yield': 0, 'pop': 0}
         bad = []
         for ret, eff in ps:
